@@ -284,10 +284,49 @@ def aggregation(ctx, maxn):
     return n
 
 
+def filter_positions(ctx):
+    """records of filters in every position a filter can take (after a key on a list / a struct, after [*] / * on
+    scalars, structs and lists, twice in a row, on a variable) as the head of a block, a clause and a when condition:
+    the clauses of a filter belong under a Filter record, never among the lines of the enclosing body
+    (regression of the defect fixed in /repo ec31769: `l[*][ this == 1 ] { .. }` on scalars)"""
+    doc = {'l': [1, 2], 's': [{'x': 1, 'y': 1}, {'x': 2, 'y': 1}], 'm': {'a': {'x': 1, 'y': 1}, 'b': {'x': 2, 'y': 1}},
+           'n': [[1, 2], [2]], 'e': []}
+    heads = ['l[*][ this == 1 ]', 'l[ this == 1 ]', 'l[*][ this == 9 ]', 's[ x == 1 ]', 's[*][ x == 1 ]', 'm[ x == 1 ]',
+             'm.*[ x == 1 ]', 'm[*][ x == 1 ]', 's[ x == 1 ][ y == 1 ]', 's[*][ x == 1 ][ y == 2 ]', 'n[*][*][ this == 2 ]',
+             'n[*][ this == 2 ]', 'l[*][ this == 1 or this == 2 ]', 'l[*][ this >= 1\n this == 2 ]', 'e[*][ this == 1 ]',
+             'm.a.x[ this == 1 ]', 's[0].x[*][ this == 1 ]', 's[*].x[*][ this == 2 ]']
+    uses = ['rule t {\n  %s {\n    this exists\n  }\n}\n', 'rule t {\n  some %s {\n    this exists\n  }\n}\n',
+            'rule t {\n  %s exists\n}\n', 'rule t {\n  %s !empty\n  l exists\n}\n',
+            'rule t {\n  when %s exists {\n    l exists\n  }\n}\n', 'rule t when %s exists {\n  l !exists\n}\n',
+            'let v = %s\nrule t {\n  %%v exists\n  %%v {\n    this exists\n  }\n}\n',
+            'rule t {\n  l exists or\n  %s !exists\n  %s { this !exists }\n}\n']
+    pairs = []
+    for h in heads:
+        for u in uses:
+            pairs.append({'rules': u.replace('%s', h).replace('%%', '%'), 'data': json.dumps(doc)})
+    out, errs = corr.run(pairs, ctx.wd, 'c02flt', loader='json', expr='({check}, wf_impl i{i})')
+    if errs:
+        raise ToolingError('model evaluation failed: %r' % (errs[:1],))
+    n = 0
+    for o, pair in zip(out, pairs):
+        info = {'class': 'filter-position', 'rules': pair['rules'], 'data': pair['data']}
+        if o['kind'] != 'compared':
+            continue      # not in the grammar (e.g. a filter on a scalar key is rejected): nothing to observe
+        n += 1
+        v = o['verdict']
+        if 'WfBadNode' in v or 'WfRootMismatch' in v:
+            ctx.failing('a filter\'s records are not explained / a body has a line that is not its own (%s)' % v, dict(info, **{'class': 'wf'}), found=True)
+        elif re.search(r'VDis|VModelOOF|NoModelOutput', v):
+            ctx.failing('filter position: model and implementation disagree (%s)' % v, dict(info, **{'class': 'eval-correspondence'}), found=False)
+    ctx.coverage['filter_position_cases'] = n
+    ctx.coverage['evaluations'] += n
+    return n
+
+
 def run(ctx):
     ctx.build()
     pr = ctx.proofs('C02')
-    n0 = aggregation(ctx, 4 if ctx.tier == 'thorough' else 3)
+    n0 = aggregation(ctx, 4 if ctx.tier == 'thorough' else 3) + filter_positions(ctx)
     if ctx.tier == 'thorough':
         n1 = exhaustive_cnf(ctx, 3, 3) if os.environ.get('VERIF_C02_FULL') else exhaustive_cnf(ctx, 3, 2)
         n2 = generated(ctx, 4000)
